@@ -1727,6 +1727,67 @@ package rtcp
 //@   ensures accepted: err == nil && err2 == nil && specTWCCCanonical(raw) ==> err3 == nil
 //@   ensures same: err == nil && err2 == nil && err3 == nil && specTWCCCanonical(raw) ==> specTWCCEqual(p, q, true)
 
+//@ func lemmaLayoutSDES(p SourceDescription) (out []byte, err error)
+//@   lemma
+//@   trusted
+//@   bounded[C03,C05,C08] genSDES
+//@   ensures ok: (err == nil) <==> specSDESWellFormed(p)
+//@   ensures layout: err == nil ==> specBytesEq(out, specSDESBytes(p))
+//@   ensures size: err == nil ==> len(out) == p.MarshalSize()
+
+//@ func lemmaRoundTripSDES(p SourceDescription) (q SourceDescription, err error, err2 error)
+//@   lemma
+//@   trusted
+//@   bounded[C02] genSDES
+//@   ensures decodes: err == nil ==> err2 == nil
+//@   ensures same: err == nil && err2 == nil ==> specSDESEqual(p, q)
+
+//@ func lemmaReencodeSDES(raw []byte) (p SourceDescription, q SourceDescription, err error, err2 error, err3 error)
+//@   lemma
+//@   trusted
+//@   bounded[C09,C01] genSDESRaw
+//@   ensures accepted: err == nil && err2 == nil ==> err3 == nil
+//@   ensures same: err == nil && err2 == nil && err3 == nil ==> specSDESEqual(p, q)
+
+//@ func lemmaLayoutCCFB(p CCFeedbackReport) (out []byte, err error)
+//@   lemma
+//@   trusted
+//@   bounded[C03,C05] genCCFB
+//@   ensures ok: specCCFBCanonical(p) ==> err == nil
+//@   ensures layout: err == nil && specCCFBCanonical(p) ==> specBytesEq(specCCFBMask(out, p), specCCFBMask(specCCFBBytes(p, specCCFBRFCNumReports), p))
+//@   ensures numreports: err == nil && specCCFBCanonical(p) ==> specBytesEq(out, specCCFBBytes(p, specCCFBRFCNumReports))
+//@   ensures size: err == nil ==> len(out) == p.MarshalSize()
+
+//@ func lemmaRoundTripCCFB(p CCFeedbackReport) (q CCFeedbackReport, err error, err2 error)
+//@   lemma
+//@   trusted
+//@   bounded[C02] genCCFB
+//@   ensures decodes: err == nil ==> err2 == nil
+//@   ensures same: err == nil && err2 == nil && specCCFBCanonical(p) ==> specCCFBEqual(p, q)
+
+//@ func lemmaReencodeCCFB(raw []byte) (p CCFeedbackReport, q CCFeedbackReport, err error, err2 error, err3 error)
+//@   lemma
+//@   trusted
+//@   bounded[C09,C01] genCCFBRaw
+//@   ensures accepted: err == nil && err2 == nil ==> err3 == nil
+//@   ensures same: err == nil && err2 == nil && err3 == nil ==> specCCFBEqual(p, q)
+
+//@ func lemmaRoundTripList(ps []Packet) (qs []Packet, out []byte, err error, err2 error)
+//@   lemma
+//@   trusted
+//@   bounded[C02,C06,C07,C05,C11] genPacketList
+//@   ensures encodes: err == nil
+//@   ensures decodes: err == nil ==> err2 == nil
+//@   ensures same: err == nil && err2 == nil ==> specSameWire(ps, qs)
+//@   ensures size: err == nil ==> len(out) == specSumSizes(ps) && len(out) == CompoundPacket(ps).MarshalSize()
+
+//@ func lemmaReencodeList(raw []byte) (ps []Packet, qs []Packet, err error, err2 error, err3 error)
+//@   lemma
+//@   trusted
+//@   bounded[C09,C06,C01] genDatagram
+//@   ensures accepted: err == nil && err2 == nil && specListScope(ps) ==> err3 == nil
+//@   ensures same: err == nil && err2 == nil && err3 == nil && specListScope(ps) ==> specSameWire(ps, qs)
+
 //@ func lemmaReencodeSR(raw []byte) (p SenderReport, q SenderReport, err error, err2 error, err3 error)
 //@   lemma
 //@   requires frame: len(raw) <= 4*65536
